@@ -55,20 +55,23 @@ def _mc_jobs(tier):
             return ("s" if st else "n") + ("l" if lv else "x")
         for strict in (True, False):
             for live in (False, True):
-                for p in range(nparts):
-                    jobs.append((f"D-r2-d4-{mode(strict, live)}-{p}/{nparts}",
-                                 consts(strict=strict, live=live, depth=4, rank=2, sizes=S4, part=p, nparts=nparts),
+                np_ = 3 if live else nparts     # live assignment keeps invalid states out: fewer states
+                for p in range(np_):
+                    jobs.append((f"D-r2-d4-{mode(strict, live)}-{p}/{np_}",
+                                 consts(strict=strict, live=live, depth=4, rank=2, sizes=S4, part=p, nparts=np_),
                                  1, p == 0))
         # rank 3: programs of 5 operations over sizes {0,2,3}, of 4 operations over sizes 0..3
-        for strict, live in ((True, True), (True, False), (False, False)):
-            for p in range(nparts):
-                jobs.append((f"D-r3-d4-{mode(strict, live)}-{p}/{nparts}",
-                             consts(strict=strict, live=live, depth=4, rank=3, sizes=(0, 2, 3), part=p, nparts=nparts),
+        for strict, live in ((True, False), (False, False), (True, True)):
+            np_ = 2 if live else nparts
+            for p in range(np_):
+                jobs.append((f"D-r3-d4-{mode(strict, live)}-{p}/{np_}",
+                             consts(strict=strict, live=live, depth=4, rank=3, sizes=(0, 2, 3), part=p, nparts=np_),
                              1, p == 0))
         for strict, live in ((True, False), (False, True)):
-            for p in range(4):
-                jobs.append((f"D-r3-d3-{mode(strict, live)}-{p}/4",
-                             consts(strict=strict, live=live, depth=3, rank=3, sizes=S4, part=p, nparts=4), 1, p == 0))
+            np_ = 2 if live else 4
+            for p in range(np_):
+                jobs.append((f"D-r3-d3-{mode(strict, live)}-{p}/{np_}",
+                             consts(strict=strict, live=live, depth=3, rank=3, sizes=S4, part=p, nparts=np_), 1, p == 0))
         for strict in (True, False):
             jobs.append((f"P-r3-{'s' if strict else 'n'}",
                          consts(strict=strict, live=False, depth=1000, rank=3, sizes=S4, kinds=("recon",)), 4, True))
@@ -132,6 +135,25 @@ def _signature_extra(rep):
     return out
 
 
+def _edge_class(state, op, outs) -> str:
+    """action / state kind / specified outcome (/ whether the data changes) of an executed edge"""
+    ret = outs[0]["ret"]
+    res = ret.get("e") or (str(ret["b"]).lower() if "b" in ret else "ok")
+    a = op["a"]
+    if a == "recon":
+        w = len(state["cons"]) // 2
+        has = state["cons"][op["dim"] + w] != -1
+        a = "remove" if op["size"] == -1 else ("edit" if has else "add")
+    moved = "/resized" if (a == "edit" and res == "ok" and outs[0]["st"]["data"] != state["data"]) else ""
+    return f"{a}/{state['kind']}/{res}{moved}"
+
+
+REQUIRED_CLASSES = ("add/ready/ok", "add/ready/ValueError", "add/ready/RuntimeError", "add/ign/ok",
+                    "remove/ready/ok", "remove/ready/RuntimeError", "remove/ready/ValueError",
+                    "edit/ready/ok", "edit/ready/ok/resized", "edit/ready/RuntimeError", "edit/ign/ok",
+                    "assign/ready/ok", "assign/ready/ValueError", "assign/ign/ValueError")
+
+
 def replay_graph(chk: Check, g: graph.Graph, c: dict, *, budget, rng, param, deviate=None, report=True):
     hdr = {"wd": c["WD"], "strict": c["Strict0"], "live": c["Live0"], "param": param, "ignseq": rng.randint(0, 5)}
     make = lambda: ConstraintsImpl(hdr)
@@ -153,9 +175,15 @@ def replay_graph(chk: Check, g: graph.Graph, c: dict, *, budget, rng, param, dev
                          op_class=lambda op: ("recon-remove" if op.get("size") == -1 else "recon") if op.get("a") == "recon" else op.get("a"))
     if report:
         chk.evaluations += stats.edges
+        classes = chk.extra.setdefault("constraints_executed_edge_classes", {})
+        index = getattr(g, "_op_index", None)
+        if index is None:
+            index = g._op_index = {k: {graph.canon(op): outs for op, outs in tab} for k, tab in g.table.items()}
         for k, o in stats.pairs:
             if _nontrivial_edge(k, o):
                 chk.nontrivial.add(("cons", g.name, param, k, o))
+            cl = _edge_class(g.states[k], json.loads(o), index[k][o])
+            classes[cl] = classes.get(cl, 0) + 1
         chk.extra["constraints_replayed_edges"] = chk.extra.get("constraints_replayed_edges", 0) + stats.edges
         chk.note(f"constraints replay {g.name} param={param}: {stats.edges} edges of {g.n_edges}, "
                  f"{len(stats.states_visited)}/{len(g.states)} states, mismatches={len(stats.mismatches)}")
@@ -361,65 +389,74 @@ def run_constraints(chk: Check, tier: str, rng: random.Random):
     mc_f = [ex.submit(_run_mc, j) for j in jobs]
     conv_f = ex.submit(_informative_converse)
 
-    # ---- B (driver part, python only) while TLC is busy
-    ntr = 120 if quick else 2500
-    def observe_error(hdr, ops, state, op, ret, nst):
-        rep = {"hdr": hdr, "ops": ops, "state": state, "op": op, "observed": {"ret": ret, "st": nst}}
-        sig = {"clause": "ObservationRaises", "op": op.get("a"), "site": "ShapedTensor/random-program",
-               "storage": "parameter" if hdr.get("param") else "buffer",
-               "raised": str(nst["valid"] if not isinstance(nst["valid"], bool) else nst["ndim"])}
-        chk.violation(sig, rep)
+    try:
+        # ---- B (driver part, python only) while TLC is busy
+        ntr = 120 if quick else 2500
+        def observe_error(hdr, ops, state, op, ret, nst):
+            rep = {"hdr": hdr, "ops": ops, "state": state, "op": op, "observed": {"ret": ret, "st": nst}}
+            sig = {"clause": "ObservationRaises", "op": op.get("a"), "site": "ShapedTensor/random-program",
+                   "storage": "parameter" if hdr.get("param") else "buffer",
+                   "raised": str(nst["valid"] if not isinstance(nst["valid"], bool) else nst["ndim"])}
+            chk.violation(sig, rep)
 
-    traces = random_traces(rng, ntr, on_observe_error=observe_error)
-    if not traces:
-        raise MachineryFailure("constraints: no trace could be recorded")
+        traces = random_traces(rng, ntr, on_observe_error=observe_error)
+        if not traces:
+            raise MachineryFailure("constraints: no trace could be recorded")
 
-    # ---- A: every emitted edge (quick: a stratified sample) on real objects
-    budget = 5000 if quick else None
-    first_graph = None
-    for f in gen_f:
-        name, c, res = f.result()
-        if not res.ok:
-            raise MachineryFailure(f"TLC generation run {name} failed: {res.out[-2000:]}")
-        g = graph.Graph.from_lines(res.printed())
-        if len(g.states) != res.distinct:
-            raise MachineryFailure(f"emitted graph {name} has {len(g.states)} states, TLC reports {res.distinct}")
-        g.name = name
-        chk.add_tlc("cons-gen:" + name, res)
-        for param in (False, True):
-            replay_graph(chk, g, c, budget=budget, rng=rng, param=param)
-        if first_graph is None:
-            first_graph = (g, c)
-            canary_replay(chk, g, c, rng)
-            k = g.order[min(len(g.order) - 1, 30)]
-            chk.sample({"kind": "constraints-outcome-table", "state": g.states[k], "first_ops": g.table[k][:2]})
+        # ---- A: every emitted edge (quick: a stratified sample) on real objects
+        budget = 5000 if quick else None
+        first_graph = None
+        for f in gen_f:
+            name, c, res = f.result()
+            if not res.ok:
+                raise MachineryFailure(f"TLC generation run {name} failed: {res.out[-2000:]}")
+            g = graph.Graph.from_lines(res.printed())
+            if len(g.states) != res.distinct:
+                raise MachineryFailure(f"emitted graph {name} has {len(g.states)} states, TLC reports {res.distinct}")
+            g.name = name
+            chk.add_tlc("cons-gen:" + name, res)
+            for param in (False, True):
+                replay_graph(chk, g, c, budget=budget, rng=rng, param=param)
+            if first_graph is None:
+                first_graph = (g, c)
+                canary_replay(chk, g, c, rng)
+                k = g.order[min(len(g.order) - 1, 30)]
+                chk.sample({"kind": "constraints-outcome-table", "state": g.states[k], "first_ops": g.table[k][:2]})
 
-    # ---- B: TLC validates the recorded programs
-    _, rej = validate_traces(chk, traces, site="random-program", shards=6 if quick else 16)
-    canary_trace(chk, traces, {r["trace"] for r in rej})
+        classes = chk.extra.get("constraints_executed_edge_classes", {})
+        missing = [k for k in REQUIRED_CLASSES if not classes.get(k)]
+        if missing:
+            raise MachineryFailure(f"constraints replay is vacuous for {missing}")
 
-    # ---- T: exhaustive runs
-    for f in mc_f:
-        name, c, res, counted, named = f.result()
-        if res.violated:
-            clauses = [n for n, _ in (named or [])] or res.violated
-            for cl in clauses:
-                chk.violation({"clause": "MC:" + cl, "op": "spec", "site": "ConstraintsMC", "config": name.split("-")[0]},
-                              {"config": name, "constants": {k: (sorted(v) if isinstance(v, set) else v) for k, v in c.items()},
-                               "tlc_tail": dict(named or []).get(cl, res.out[-4000:])})
-        elif not res.ok:
-            raise MachineryFailure(f"TLC run {name} did not complete: {res.out[-2000:]}")
-        if counted:
-            chk.add_tlc("cons-mc:" + name, res)
-        else:
-            chk.mc_runs.append({"config": "cons-mc:" + name, "distinct": res.distinct, "generated": res.generated,
-                                "depth": res.depth, "wall_s": round(res.wall, 2), "exhaustive": True,
-                                "note": "share of the exploration above: same graph, not added to the totals"})
-        if counted:
-            chk.note(f"constraints mc {name}: {res.distinct} states, {res.generated} transitions, {res.wall:.1f}s, "
-                     f"violated={res.violated}")
-    conv = conv_f.result()
-    ex.shutdown()
+        # ---- B: TLC validates the recorded programs
+        _, rej = validate_traces(chk, traces, site="random-program", shards=6 if quick else 16)
+        canary_trace(chk, traces, {r["trace"] for r in rej})
+
+        # ---- T: exhaustive runs
+        for f in mc_f:
+            name, c, res, counted, named = f.result()
+            if res.violated:
+                clauses = [n for n, _ in (named or [])] or res.violated
+                for cl in clauses:
+                    chk.violation({"clause": "MC:" + cl, "op": "spec", "site": "ConstraintsMC", "config": name.split("-")[0]},
+                                  {"config": name, "constants": {k: (sorted(v) if isinstance(v, set) else v) for k, v in c.items()},
+                                   "tlc_tail": dict(named or []).get(cl, res.out[-4000:])})
+            elif not res.ok:
+                raise MachineryFailure(f"TLC run {name} did not complete: {res.out[-2000:]}")
+            elif name.startswith("D-") and res.depth != c["MaxDepth"] + 1:
+                raise MachineryFailure(f"TLC run {name} explored depth {res.depth}, expected {c['MaxDepth'] + 1}")
+            if counted:
+                chk.add_tlc("cons-mc:" + name, res)
+            else:
+                chk.mc_runs.append({"config": "cons-mc:" + name, "distinct": res.distinct, "generated": res.generated,
+                                    "depth": res.depth, "wall_s": round(res.wall, 2), "exhaustive": True,
+                                    "note": "share of the exploration above: same graph, not added to the totals"})
+            if counted:
+                chk.note(f"constraints mc {name}: {res.distinct} states, {res.generated} transitions, {res.wall:.1f}s, "
+                         f"violated={res.violated}")
+        conv = conv_f.result()
+    finally:
+        ex.shutdown(wait=False, cancel_futures=True)
     if "error" in conv.values():
         raise MachineryFailure(f"informative converse run failed: {conv}")
     chk.extra["constraints_converse_satisfied_implies_valid"] = conv
